@@ -835,6 +835,20 @@ def install(ctx):
             return opt_sym(s.n > 0, Ref(Loc(Cell(s.elems[0], 'front'))))
         return opt_sym(s.n > 0, Ref(Loc(Cell(select(s.elems, z3.If(s.n > 0, s.n - 1, 0)), 'back'))))
 
+    @M.reg('vec::from_elem', 'from_elem')
+    def vec_from_elem(ip, pc, args, dt):
+        # vec![x; n]
+        x, n = args
+        cn = concrete_int(n.t)
+        cap = cn if cn is not None else ip.unroll
+        if cn is None:
+            ip.path.assume(n.t <= cap)        # stated bound: at most `unroll` copies are looked at
+        return Seq([x] * cap, n.t, 'vec')
+
+    @M.reg('Vec::as_slice', 'Vec::as_mut_slice', 'VecDeque::make_contiguous')
+    def vec_as_slice(ip, pc, args, dt):
+        return args[0]
+
     @M.reg('Vec::swap_remove', 'Vec::remove', 'VecDeque::remove')
     def vec_remove(ip, pc, args, dt):
         r, k = args
